@@ -194,6 +194,20 @@ pub fn run(ctx: &mut Ctx) {
                 if t3.serialize_raw().expect("serialize") != bt {
                     viol.push(("C09:same-process-builds-differ-with-tags".into(), json!({"case": desc})));
                 }
+                // the same enabled set reached through other histories of tag operations
+                let mut t4 = build(&lines, debug, optimize, perm);
+                t4.enable_tags(&TAGS[..1]);
+                t4.enable_tags(&TAGS[1..2]);
+                let mut t5 = build(&lines, debug, optimize, perm);
+                t5.enable_tags(&TAGS[1..2]);
+                t5.enable_tags(&TAGS[..3]);
+                t5.disable_tags(&TAGS[2..3]);
+                evals += 2;
+                for (name, t) in [("enable one by one", &t4), ("enable, enable more, disable the surplus", &t5)] {
+                    if t.serialize_raw().expect("serialize") != bt {
+                        viol.push(("C09:bytes-depend-on-the-history-of-tag-operations".into(), json!({"case": desc, "route": name})));
+                    }
+                }
             }
             let (buckets, biggest) = largest_containers(&e1);
             (evals, viol, digest128(&b1), b1.len(), buckets, biggest, desc)
